@@ -14,7 +14,8 @@ LEVEL = "model_checking"
 CODE = ["yowsup/layers/__init__.py:YowProtocolLayer._sendIq/processIqRegistry/receive", "yowsup/layers/interface/interface.py:_sendIq/processIqRegistry/receive",
         "sendIq/recvIq of every protocol layer", "yowsup/layers/axolotl/layer_base.py:getKeysFor", "yowsup/layers/axolotl/layer_control.py:flush_keys/on_keys_flushed",
         "yowsup/layers/axolotl/layer_send.py:sendToGroup", "yowsup/structs/protocolentity.py:_generateId"]
-BOUNDS = {"quick": "[+ keep-alive pong at a plain and a catch-all application; histories 2 requests x 3 deliveries over {ping, last seen}] " 
+BOUNDS = {"quick": "[+ error reply then second reply to the success-only group-info request] " 
+                   "[+ keep-alive pong at a plain and a catch-all application; histories 2 requests x 3 deliveries over {ping, last seen}] " 
                    "[+ step cases with an application declaring catch-all stanza handlers (3 kinds)] " 
                    "step: 1 outstanding request per kind (16 kinds), reply id unconstrained string, type in {result,error}, delivered twice; "
                    "history: 2 outstanding requests x 3 deliveries, kinds from 4 representatives; sync-reply: 6 kinds answered while the send is still in progress; nonreply: receipt / read receipt / ack / notification with an unconstrained id while an application request and a key upload are outstanding",
